@@ -81,7 +81,18 @@ def run(ctx):
         want = {tuple(u) for u in sp["uses"]}
         ctx.instance(1, {"opcode": hex(i), "handler": short(h), "uses": sorted(map(list, got), key=str)} if i in (1, 6) else None)
         nrows += len(got)
-        ok = got == want
+        # which bits steer the decoding matters, not whether they are tested one at a time or matched as one field
+        def norm(us):
+            steer, rest = set(), set()
+            for u in us:
+                if u[3] in ("test", "switch") and isinstance(u[0], int):
+                    steer |= set(range(u[0], u[0] + u[1]))
+                else:
+                    rest.add(tuple(u))
+            if steer:
+                rest.add(("steering bits", tuple(sorted(steer))))
+            return rest
+        ok = norm(got) == norm(want)
         ctx.oblig(ok)
         if not ok:
             ctx.violation("decode|op=%X|%s" % (i, sp["name"]), f.file_line(),
